@@ -46,6 +46,9 @@ func (c RawConfiguration) QuorumCall(ctx context.Context, d QuorumCallData) (res
 	)
 
 	for {
+		if len(errs)+len(replies) == expectedReplies {
+			return resp, QuorumCallError{cause: Incomplete, errors: errs, replies: len(replies)}
+		}
 		select {
 		case r := <-replyChan:
 			if r.err != nil {
@@ -58,9 +61,6 @@ func (c RawConfiguration) QuorumCall(ctx context.Context, d QuorumCallData) (res
 			}
 		case <-ctx.Done():
 			return resp, QuorumCallError{cause: ctx.Err(), errors: errs, replies: len(replies)}
-		}
-		if len(errs)+len(replies) == expectedReplies {
-			return resp, QuorumCallError{cause: Incomplete, errors: errs, replies: len(replies)}
 		}
 	}
 }
